@@ -270,3 +270,69 @@ Fixpoint chain_ok_from (tab : list ent) (ids : list N) (idx prev : N) : bool :=
   end.
 Definition obs_chain_ok (tab : list ent) (o : robs) : bool :=
   ro_err o || ((lenN (ro_ids o) =? ro_leo o) && chain_ok_from tab (ro_ids o) 1 0).
+
+(* ---- the case the MODEL produces for a schedule --------------------------------------------------------
+   Used by the refutation witnesses and the bounded exhaustive checks: run the model, read every
+   replica back exactly as the harness does (Load with all indexes), intern entries by
+   (content, predecessor id) — which coincides with interning by digest, the digest being the
+   structural chain — and print deltas. *)
+
+Definition ent_eqb (a b : ent) : bool :=
+  (en_idx a =? en_idx b) && (en_e a =? en_e b) && (en_t a =? en_t b) && (en_f a =? en_f b) &&
+  tag_eqb (en_cmd a) (en_cmd b) && (en_pt a =? en_pt b) && (en_pid a =? en_pid b) &&
+  record_eqb (en_rec a) (en_rec b).
+
+Fixpoint find_ent (tab : list ent) (e : ent) (k : N) : option N :=
+  match tab with
+  | [] => None
+  | x :: r => if ent_eqb x e then Some k else find_ent r e (k + 1)
+  end.
+
+Definition ent_of (x : ident * record) (pid : N) : ent :=
+  let i := fst x in Ent (i_idx i) (i_e i) (i_t i) (i_f i) (i_cmd i) (i_pt i) pid (snd x).
+
+Fixpoint intern_log (tab : list ent) (log : list (ident * record)) (prev : N) : list ent * list N :=
+  match log with
+  | [] => (tab, [])
+  | x :: r =>
+      let e := ent_of x prev in
+      match find_ent tab e 1 with
+      | Some id => let '(tab', ids) := intern_log tab r id in (tab', id :: ids)
+      | None => let id := lenN tab + 1 in
+                let '(tab', ids) := intern_log (tab ++ [e]) r id in (tab', id :: ids)
+      end
+  end.
+
+Definition robs_eqb (a b : robs) : bool :=
+  Bool.eqb (ro_err a) (ro_err b) && (ro_leo a =? ro_leo b) && (ro_hw a =? ro_hw b) &&
+  list_eqb N.eqb (ro_ids a) (ro_ids b).
+
+(* observe every voter; returns the new table, the full observation and the delta *)
+Fixpoint observe_all (k : store_kind) (n : net) (vs : list N) (tab : list ent) (prev : list (N * robs))
+  : list ent * list (N * robs) * list (N * robs) :=
+  match vs with
+  | [] => (tab, [], [])
+  | v :: rest =>
+      let rp := net_rep n v in
+      let '(tab1, o) :=
+        match loadExactState k rp with
+        | None => (tab, RO true 0 0 [])
+        | Some s => let '(t, ids) := intern_log tab (rp_log rp) 0 in (t, RO false (rs_leo s) (rs_committed s) ids)
+        end in
+      let '(tab2, full, delta) := observe_all k n rest tab1 prev in
+      (tab2, (v, o) :: full, if robs_eqb o (get_robs prev v) then delta else (v, o) :: delta)
+  end.
+
+Fixpoint model_steps (cfg : qconfig) (c : cluster) (tab : list ent) (prev : list (N * robs)) (ops : list qop)
+  : list ent * list (qop * qobs) :=
+  match ops with
+  | [] => (tab, [])
+  | op :: rest =>
+      let '(c', r) := q_step cfg c op in
+      let '(tab1, full, delta) := observe_all (cf_kind cfg) (cl_net c') (voters_of cfg) tab prev in
+      let '(tab2, steps) := model_steps cfg c' tab1 full rest in
+      (tab2, (op, Obs r delta) :: steps)
+  end.
+
+Definition model_case (cfg : qconfig) (ops : list qop) : qcase :=
+  let '(tab, steps) := model_steps cfg (cluster_init cfg) [] [] ops in QCase cfg tab steps.
